@@ -178,8 +178,10 @@ PROPS["C12"] = dict(
           "determined (no url and no name, or a name that is not a string): it must show its positional number next to the error text, "
           "without a label, and open its own url or nothing. Non-trivial: N >= 2 and (nested link, attachments, or width < 8). "
           "Distinct = distinct (kind, document, attachments, width)."),
+    helpers=("argdump",),
     units=[
         rapid("Prop", "TestProp", 24000, 600000),
+        rapid("Typed", "TestTyped", 1200, 30000, shards=(8, 16), config_toml=_NET + "cache_size = 16\n"),
     ],
     manifest=dict(
         text=("Property-based testing with ground truth by construction: generator-assigned unique labels and targets, the shown "
